@@ -2,8 +2,12 @@ package hx
 
 import (
 	"bytes"
+	"compress/gzip"
 	"fmt"
+	"math/bits"
+	"time"
 
+	"github.com/andybalholm/brotli"
 	"github.com/golang/snappy"
 	"github.com/klauspost/compress/zstd"
 	"github.com/pierrec/lz4"
@@ -95,4 +99,82 @@ func Encode(encoding string, b []byte, level int) ([]byte, error) {
 		return nil, fmt.Errorf("reference codec self-check: round trip differs")
 	}
 	return out, nil
+}
+
+// EncodeVariant a valid stream of the format produced with encoder settings that change the container
+// rather than the data (the decoder must not care): gzip header with optional fields (FNAME, FCOMMENT,
+// FEXTRA, MTIME), brotli with a chosen window, zstd written chunk-wise by a streaming encoder with an
+// explicit window size (the frame header then declares that window, however small the payload). pick
+// selects the variant deterministically. Self-checked like Encode; ok=false when the format has no variants.
+func EncodeVariant(encoding string, b []byte, level int, pick int) (out []byte, desc string, ok bool) {
+	var back []byte
+	var err error
+	switch encoding {
+	case "gzip":
+		var buf bytes.Buffer
+		w, _ := gzip.NewWriterLevel(&buf, 1+level%9)
+		switch pick % 4 {
+		case 0:
+			w.Name = "index.html"
+			desc = "gzip:fname"
+		case 1:
+			w.Comment = "written by another tool"
+			w.ModTime = time.Unix(1700000000, 0)
+			desc = "gzip:fcomment+mtime"
+		case 2:
+			w.Extra = []byte{'A', 'p', 4, 0, 1, 2, 3, 4}
+			desc = "gzip:fextra"
+		default:
+			w.Name, w.Comment, w.Extra, w.OS = "a.js", "c", []byte{'B', 'C', 2, 0, 9, 9}, 3
+			desc = "gzip:fname+fcomment+fextra"
+		}
+		w.Write(b)
+		w.Close()
+		out = buf.Bytes()
+		back, err = GunzipBytes(out)
+	case "br":
+		lgwin := []int{10, 16, 22, 24}[pick%4]
+		var buf bytes.Buffer
+		w := brotli.NewWriterOptions(&buf, brotli.WriterOptions{Quality: level % 12, LGWin: lgwin})
+		for i := 0; i < len(b); i += 70000 {
+			j := i + 70000
+			if j > len(b) {
+				j = len(b)
+			}
+			w.Write(b[i:j])
+			if pick%3 == 0 {
+				w.Flush()
+			}
+		}
+		w.Close()
+		out = buf.Bytes()
+		desc = fmt.Sprintf("br:lgwin%d", lgwin)
+		back, err = UnbrotliBytes(out)
+	case "zst":
+		win := []int{1 << 10, 1 << 16, 1 << 20, 1 << 23, 1 << 24, 1 << 25}[pick%6]
+		l := zstd.EncoderLevel(1 + level%4)
+		var buf bytes.Buffer
+		w, e := zstd.NewWriter(&buf, zstd.WithEncoderLevel(l), zstd.WithEncoderConcurrency(1), zstd.WithWindowSize(win))
+		if e != nil {
+			return nil, "", false
+		}
+		chunk := 1 + (pick*7919)%60000
+		for i := 0; i < len(b); i += chunk {
+			j := i + chunk
+			if j > len(b) {
+				j = len(b)
+			}
+			w.Write(b[i:j])
+		}
+		w.Close()
+		out = buf.Bytes()
+		desc = fmt.Sprintf("zst:stream_window_2^%d", bits.Len(uint(win))-1)
+		back, err = UnzstdBytes(out)
+	default:
+		return nil, "", false
+	}
+	if err != nil || !bytes.Equal(back, b) {
+		return nil, desc, false
+	}
+	return out, desc, true
 }
